@@ -18,12 +18,12 @@ UNITS3 = [(0, 0, 0), (3, 0, 0), (-2, 0, 1), (0, 0, -2), (2, 0, 3)]
 
 
 def models(tier, seed):
-    return [dict(module='MC_C10.tla', cfg=f'MC_C10_{tier}.cfg', batch=20), dict(module='MC_C10.tla', cfg='MC_C10_quick2.cfg', batch=20)]
+    return [dict(module='MC_C10.tla', cfg=f'MC_C10_{tier}.cfg', batch=20), dict(module='MC_C10.tla', cfg='MC_C10_quick2.cfg', batch=20)] + ([dict(module='MC_C10.tla', cfg='MC_C10_quick3.cfg', batch=20)] if tier == 'thorough' else [dict(module='MC_C10.tla', cfg='MC_C10_light3.cfg', batch=20)])
 
 
 def required_tags(tier):
     return ['states:1', 'states:2', 'sources:2', 'w=0', 'k:capacitor', 'k:inductance', 'k:dc_current_source', 'k:dc_voltage_source', 'scheme:Is<L<Vs', 'scheme:other',
-            'inductors>=2', 'wrapper', 'nodal']
+            'inductors>=2', 'wrapper', 'nodal', 'reanalysed_with_other_values']
 
 
 def transfer(A, B, C, D, w):
@@ -121,6 +121,10 @@ def replay(case, ctx):
     comps = case['comps']
     h = stable_hash(comps)
     r = CaseResult(case_id=f'{h:x}')
+    if ctx.get('tier') != 'thorough' and sum(1 for c in comps if c['kind'] != 'ground') >= 5 and sum(1 for c in comps if c['kind'] == 'capacitor') >= 2 and h % 4:
+        r.skipped = 'sampled_out_in_quick_tier'
+        r.nontrivial = False
+        return r
     tg = {'k:' + c['kind'] for c in comps}
     tg.add(f'states:{min(len(case["states"]), 2)}')
     if len(case['sources']) >= 2:
@@ -130,11 +134,15 @@ def replay(case, ctx):
     variants = case.get('schemes')
     if variants is None:
         variants = [(0, 0, (0, 0, 0)), ((h % (N_SCHEMES - 1)) + 1, 0, UNITS3[(h >> 8) % len(UNITS3)])]
+        # the same circuit again, same names, other capacitances / inductances (frequency unit): an analysis must not remember the previous one
+        variants.append((0, 0, (0, 0, [1, -1, 2][h % 3])))
         if ctx.get('tier') == 'thorough':
             variants.append((((h >> 3) % (N_SCHEMES - 1)) + 1, 0, UNITS3[(h >> 11) % len(UNITS3)]))
     for scheme, turns, units in variants:
         units = tuple(units)
         tg.add('scheme:Is<L<Vs' if scheme_is_default_order(scheme) else 'scheme:other')
+        if scheme == 0 and units != (0, 0, 0):
+            tg.add('reanalysed_with_other_values')
         ctxs = f'scheme={scheme} units={units}'
         b = build_models(case, scheme, turns, units, r.mismatches, ctxs)
         if b is None:
